@@ -38,6 +38,9 @@ int g_cur = 0;
 int64_t g_now_ns = 0;
 Schedule g_sch;
 size_t g_choice_pos = 0;
+uint64_t g_choice_points = 0;          // choice points seen so far (PCT change points are indices into this sequence)
+std::map<int, int64_t> g_prio;         // PCT: current rank per virtual thread
+int64_t g_prio_low = 0;
 uint64_t g_io_index = 0;
 Stats g_stats;
 std::map<void *, Mx> g_mx;
@@ -94,6 +97,31 @@ int pick() {
         int cur_index = -1;
         for (size_t k = 0; k < en.size(); ++k) if (en[k] == g_cur) cur_index = (int) k;
         bool is_choice_point = en.size() + sleepers.size() > 1;
+        if (is_choice_point && !g_sch.pct.empty()) {
+            uint64_t idx = g_choice_points++;
+            auto prio = [&](int tid) -> int64_t {
+                auto it = g_prio.find(tid);
+                if (it != g_prio.end()) return it->second;
+                int64_t p = 1000 + (int64_t) (g_sch.pct[(size_t) tid % std::min<size_t>(3, g_sch.pct.size())] % 1000) * 8 + tid;   // distinct per thread
+                g_prio[tid] = p;
+                return p;
+            };
+            auto best = [&]() { size_t b = 0; for (size_t k = 1; k < en.size(); ++k) if (prio(en[k]) > prio(en[b])) b = k; return b; };
+            for (size_t q = 3; q < g_sch.pct.size(); ++q) {
+                if ((uint64_t) (g_sch.pct[q] & 0x7fffffffu) != idx) continue;
+                if ((g_sch.pct[q] & 0x80000000u) && !sleepers.empty()) {
+                    int sl = sleepers[idx % sleepers.size()];
+                    g_now_ns = T[(size_t) sl]->wake_ns;
+                    ++g_stats.time_jumps;
+                    if (g_decisions.size() < 2000000) g_decisions.push_back(Decision{(uint16_t) en.size(), (int16_t) cur_index, 0xffff});
+                    return sl;
+                }
+                g_prio[en[best()]] = --g_prio_low;     // demote the thread that would run now
+            }
+            size_t k = best();
+            if (g_decisions.size() < 2000000) g_decisions.push_back(Decision{(uint16_t) en.size(), (int16_t) cur_index, (uint16_t) k});
+            return en[k];
+        }
         if (is_choice_point && g_choice_pos < g_sch.choices.size()) {
             uint32_t c = g_sch.choices[g_choice_pos++];
             if ((c & 0x80000000u) && !sleepers.empty()) {
@@ -201,7 +229,7 @@ void join_app(int tid) {
 
 void run(const Schedule & s, const std::function<void()> & app, std::string & verdict) {
     T.clear(); g_mx.clear(); g_cv.clear(); g_trace.clear(); g_decisions.clear();
-    g_sch = s; g_choice_pos = 0; g_io_index = 0; g_now_ns = 0; g_stats = Stats(); g_mutex_count = 0; g_msg_mutex = g_process_mutex = nullptr;
+    g_sch = s; g_choice_pos = 0; g_choice_points = 0; g_prio.clear(); g_prio_low = 0; g_io_index = 0; g_now_ns = 0; g_stats = Stats(); g_mutex_count = 0; g_msg_mutex = g_process_mutex = nullptr;
     g_peeked_unpopped = false;
     verdict.clear(); g_verdict = &verdict;
     VT * m = new VT();
